@@ -178,6 +178,18 @@ _VALID_INPUTS_BY_GEOMETRY_TYPE = {
     },
 }
 
+
+def _coerceToInt(value):
+    """Coerce ``value`` to ``int`` like ``vol.Coerce(int)``, but refuse a number with a fractional part."""
+    try:
+        intValue = int(value)
+    except (ValueError, TypeError):
+        raise vol.Invalid("expected int")
+    if isinstance(value, float) and intValue != value:
+        raise vol.Invalid(f"expected int, got {value!r}, which is not integral")
+    return intValue
+
+
 _SINGLE_XS_SCHEMA = vol.Schema(
     {
         vol.Optional(CONF_GEOM): vol.All(str, vol.In(XS_GEOM_TYPES)),
@@ -193,8 +205,8 @@ _SINGLE_XS_SCHEMA = vol.Schema(
         vol.Optional(CONF_BLOCKTYPES): [str],
         vol.Optional(CONF_HOMOGBLOCK): bool,
         vol.Optional(CONF_EXTERNAL_DRIVER): bool,
-        vol.Optional(CONF_INTERNAL_RINGS): vol.Coerce(int),
-        vol.Optional(CONF_EXTERNAL_RINGS): vol.Coerce(int),
+        vol.Optional(CONF_INTERNAL_RINGS): _coerceToInt,
+        vol.Optional(CONF_EXTERNAL_RINGS): _coerceToInt,
         vol.Optional(CONF_MERGE_INTO_CLAD): [str],
         vol.Optional(CONF_MERGE_INTO_FUEL): [str],
         vol.Optional(CONF_XS_FILE_LOCATION): [str],
@@ -202,7 +214,7 @@ _SINGLE_XS_SCHEMA = vol.Schema(
         vol.Optional(CONF_MESH_PER_CM): vol.Coerce(float),
         vol.Optional(CONF_XS_EXECUTE_EXCLUSIVE): bool,
         vol.Optional(CONF_XS_PRIORITY): vol.Coerce(float),
-        vol.Optional(CONF_XS_MAX_ATOM_NUMBER): vol.Coerce(int),
+        vol.Optional(CONF_XS_MAX_ATOM_NUMBER): _coerceToInt,
         vol.Optional(CONF_MIN_DRIVER_DENSITY): vol.Coerce(float),
         vol.Optional(CONF_COMPONENT_AVERAGING): bool,
         vol.Optional(CONF_DUCT_HETEROGENEOUS): bool,
